@@ -27,11 +27,12 @@ type loc struct {
 type defKind int
 
 const (
-	dStore defKind = iota
-	dScan          // filled by a Scan call (weak: the previous value survives when no row is read)
-	dClosure       // possibly written by a closure handed to a call (value at the closure's exit)
-	dCall          // address passed to a call the engine does not model
-	dEntry         // value on entry to the function
+	dStore      defKind = iota
+	dScan               // filled by a Scan call (weak: the previous value survives when no row is read)
+	dClosure            // possibly written by a closure handed to a call (value at the closure's exit)
+	dCall               // address passed to a call the engine does not model
+	dEntry              // value on entry to the function
+	dStructCopy         // field col of a struct value stored over the whole object (*p = T{...} / *p = *q)
 )
 
 type def struct {
@@ -223,6 +224,22 @@ func (m *Model) reaching(fn *ssa.Function) *reachDefs {
 					rd.at[ins] = cloneState(cur)
 				case *ssa.Store:
 					rd.at[ins] = cloneState(cur)
+					if stT, isStruct := x.Val.Type().Underlying().(*types.Struct); isStruct {
+						// whole-object assignment: every field of the target object is redefined
+						if _, isFA := stripConv(x.Addr).(*ssa.FieldAddr); !isFA {
+							obj := m.objOf(x.Addr, cur)
+							for i := 0; i < stT.NumFields(); i++ {
+								k := fmt.Sprintf("%p/sc%d", ins, i)
+								d := scanDefs[k]
+								if d == nil {
+									d = &def{kind: dStructCopy, instr: x, store: x, col: i}
+									scanDefs[k] = d
+								}
+								cur[loc{obj, i}] = defset{d}
+							}
+							continue
+						}
+					}
 					if l, ok := m.locOf(x.Addr, cur); ok {
 						d := storeDefs[x]
 						if d == nil {
@@ -421,7 +438,11 @@ func mkPhi(ts []*Term) *Term {
 			}
 			return
 		}
-		if s := t.String(); !seen[s] {
+		s := t.String()
+		if t.Kind == "zero" {
+			s += "/" + t.Name // keep zeros of different provenance apart (norow / reset / plain)
+		}
+		if !seen[s] {
 			seen[s] = true
 			flat = append(flat, t)
 		}
@@ -560,6 +581,13 @@ func (e *termEval) term1(v ssa.Value, at ssa.Instruction, fr *frame) *Term {
 		return &Term{Kind: "cell", Name: x.Name()}
 	case *ssa.Global:
 		return &Term{Kind: "global", Name: x.Name()}
+	case *ssa.Function:
+		return &Term{Kind: "func", Name: m.declName(x)}
+	case *ssa.Builtin:
+		return &Term{Kind: "func", Name: x.Name()}
+	}
+	if v.Parent() == nil {
+		return &Term{Kind: "opaque", Name: v.Name()}
 	}
 	return &Term{Kind: "opaque", Name: m.declName(v.Parent()) + ":" + v.Name()}
 }
@@ -593,9 +621,43 @@ func (e *termEval) defsTerm(l loc, ds defset, at ssa.Instruction, fr *frame) *Te
 	for _, d := range ds {
 		switch d.kind {
 		case dStore:
-			ts = append(ts, e.term(d.store.Val, d.store, fr))
+			st := e.term(d.store.Val, d.store, fr)
+			if st.Kind == "zero" {
+				// a zero stored over a location that a Scan had filled: the row's value is forgotten
+				if before := e.m.reaching(d.store.Parent()).at[d.store]; before != nil {
+					for _, d2 := range before[l] {
+						if d2.kind == dScan {
+							st = &Term{Kind: "zero", Name: "reset"}
+						}
+					}
+				}
+			}
+			ts = append(ts, st)
 		case dScan:
 			ts = append(ts, e.scanTerm(d, fr))
+		case dStructCopy:
+			// the field of the struct value that was stored
+			src := stripConv(d.store.Val)
+			st := e.m.reaching(d.store.Parent()).at[d.store]
+			if st == nil {
+				st = map[loc]defset{}
+			}
+			if ld, ok := src.(*ssa.UnOp); ok && ld.Op == token.MUL {
+				sl := loc{e.m.objOf(ld.X, st), d.col}
+				sds, have := st[sl]
+				if !have {
+					sds = defset{entryDef}
+				}
+				ct := e.defsTerm(sl, sds, d.store, fr)
+				if ct.Kind == "zero" {
+					ct = &Term{Kind: "zero", Name: "reset"}
+				}
+				ts = append(ts, ct)
+			} else if c, ok := src.(*ssa.Const); ok && c.Value == nil {
+				ts = append(ts, &Term{Kind: "zero", Name: "reset"})
+			} else {
+				ts = append(ts, &Term{Kind: "field", Name: fmt.Sprint(d.col), Args: []*Term{e.term(src, d.store, fr)}})
+			}
 		case dCall:
 			ts = append(ts, &Term{Kind: "opaque", Name: "written-by-call@" + e.m.declName(d.instr.Parent())})
 		case dClosure:
@@ -637,7 +699,16 @@ func (e *termEval) defsTerm(l loc, ds defset, at ssa.Instruction, fr *frame) *Te
 					continue
 				}
 			}
-			ts = append(ts, e.entryTerm(l, at, fr))
+			et := e.entryTerm(l, at, fr)
+			if et.Kind == "zero" {
+				for _, d2 := range ds {
+					if d2.kind == dScan {
+						// the value a Scan destination keeps when no row was read
+						et = &Term{Kind: "zero", Name: "norow"}
+					}
+				}
+			}
+			ts = append(ts, et)
 		}
 	}
 	if len(ts) == 0 {
